@@ -227,8 +227,10 @@ def playback(group, paths, harness, scratch_tag="pb"):
     g1["jobs"] = 1
     export = os.path.join(paths["root"], "out-" + scratch_tag + ".json")
     cmd = ["cargo", "kani"] + (["-p", "trippy-core"] if group["crate"] == "core" else [])
+    # --no-slice-formula: with slicing CBMC may drop the assignments to the nondeterministic inputs from the
+    # trace, and Kani then "did not generate unit tests" (seen for c11_v4_dispatch_tcp, c10_flow_state_*)
     cmd += ["--target-dir", tdir, "--harness", harness, "--exact", "-Z", "concrete-playback",
-            "--concrete-playback=print", "-Z", "unstable-options", "--harness-timeout",
+            "--concrete-playback=print", "--no-slice-formula", "-Z", "unstable-options", "--harness-timeout",
             "%ds" % group.get("timeout_s", 300)]
     if group.get("stubbing"):
         cmd += ["-Z", "stubbing"]
